@@ -1,1 +1,5 @@
+pub mod c01;
+pub mod c06;
 pub mod c11;
+pub mod c16;
+pub mod writer_rt;
